@@ -43,3 +43,19 @@ Definition wsim_eqb (r : wsim_result) (exp : list time * list Z * list (option (
   list_eqb teqb (w_mem r) m && list_eqb Z.eqb (w_abuf r) ab && list_eqb (opt_eqb capt_eqb) (w_capt r) cp.
 Definition wsim_ok (r : option wsim_result) exp : bool :=
   match r, exp with Some x, Some e => wsim_eqb x e | None, None => true | _, _ => false end.
+
+(** Heap histories: the full table after every step *)
+Definition heap_view := (list (N * N) * list N * N * N)%type.
+Definition heap_view_of (h : heap) : heap_view := (chunks h, released h, cur h, mx h).
+Definition heap_view_eqb (a b : heap_view) : bool :=
+  let '(c1, r1, u1, m1) := a in let '(c2, r2, u2, m2) := b in
+  list_eqb (pair_eqb N.eqb N.eqb) c1 c2 && list_eqb N.eqb r1 r2 && N.eqb u1 u2 && N.eqb m1 m2.
+(** each step: the op, the location the implementation returned (allocs), and its table afterwards *)
+Fixpoint heap_case (h : heap) (steps : list (hop * N * heap_view)) : bool :=
+  match steps with
+  | [] => true
+  | (HAlloc s, loc, v) :: r =>
+      let '(l, h') := alloc h s in N.eqb l loc && heap_view_eqb (heap_view_of h') v && heap_case h' r
+  | (HFree l, _, v) :: r =>
+      match free h l with Some h' => heap_view_eqb (heap_view_of h') v && heap_case h' r | None => false end
+  end.
